@@ -152,12 +152,29 @@ X5 = M + "scsi_cdb_extended_copy_spc5:ExtendedCopy"
 XCOPY_CASES = []
 
 
-def cscd(x, tag, devtype, params_key, give_len=None):
-    """identification-descriptor (E4h) CSCD/target descriptor with an NAA-5 designator: (dict, 32-byte image)"""
+def cscd(x, tag, devtype, params_key, give_len=None, desig=None):
+    """identification-descriptor (E4h) CSCD/target descriptor: (dict, 32-byte image).  desig: None = an NAA-5 designator;
+    ("vendor", n) / ("t10", n) / ("name", n) = a vendor specific designator of n bytes, a T10 vendor ID designator with an
+    n-byte vendor specific part, a SCSI name string of n bytes (SPC-4 6.3.6.2: the DESIGNATOR field is bytes 8..27, so any
+    designator of up to 20 bytes is valid)"""
     pre = "_target" if x is X4 else "_cscd"
     naa = {"naa": 5, "ieee_company_id": S((tag, "oui"), 24), "vendor_specific_identifier": S((tag, "vsi"), 36)}
+    dtype, dval, dbytes = 3, naa, None
+    if desig is not None:
+        kind, n = desig
+        if kind == "vendor":
+            b = sym_blob((tag, "vs"), n)
+            dtype, dval, dbytes = 0, {"vendor_specific": b}, list(b.cells)
+        elif kind == "t10":
+            b1, b2 = sym_blob((tag, "t10"), 8), sym_blob((tag, "vsid"), n)
+            dtype, dval, dbytes = 1, {"t10_vendor_id": b1, "vendor_specific_id": b2}, list(b1.cells) + list(b2.cells)
+        elif kind == "name":
+            b = sym_blob((tag, "nm"), n)
+            dtype, dval, dbytes = 8, {"scsi_name_string": b}, list(b.cells)
+        else:
+            raise ValueError(kind)
     d = {"descriptor_type_code": 0xE4, "peripheral_device_type": devtype, "relative_initiator_port_identifier": S((tag, "ripi"), 16),
-         params_key: {"code_set": S((tag, "cs"), 4), "association": S((tag, "as"), 2), "designator_type": 3, "designator": naa}}
+         params_key: {"code_set": S((tag, "cs"), 4), "association": S((tag, "as"), 2), "designator_type": dtype, "designator": dval}}
     if give_len is not None:
         d[params_key]["designator_length"] = give_len     # a documented key; the library must compute the length itself
     img = Image(32)
@@ -167,11 +184,15 @@ def cscd(x, tag, devtype, params_key, give_len=None):
     img.put_int(2, 2, d["relative_initiator_port_identifier"])
     img.put((4, 3, 0), d[params_key]["code_set"])
     img.put((5, 5, 4), d[params_key]["association"])
-    img.put((5, 3, 0), 3)
-    img.put_int(7, 1, 8)                       # DESIGNATOR LENGTH
-    img.put((8, 7, 4), 5)
-    img.put((8, 3, 11, 4), naa["ieee_company_id"])
-    img.put((11, 3, 15, 0), naa["vendor_specific_identifier"])
+    img.put((5, 3, 0), dtype)
+    if dbytes is None:
+        img.put_int(7, 1, 8)                       # DESIGNATOR LENGTH
+        img.put((8, 7, 4), 5)
+        img.put((8, 3, 11, 4), naa["ieee_company_id"])
+        img.put((11, 3, 15, 0), naa["vendor_specific_identifier"])
+    else:
+        img.put_int(7, 1, len(dbytes))
+        img.put_bytes(8, dbytes)
     if devtype == 0x00:
         dev = {"pad": S((tag, "pad"), 1), "disk_block_length": S((tag, "dbl"), 24)}
         img.put((28, 2, 2), dev["pad"])
@@ -207,10 +228,10 @@ def segment(x, tag, code):
     return d, img
 
 
-def xcopy(x, devtypes, segcodes, ninline, give_len=None):
+def xcopy(x, devtypes, segcodes, ninline, give_len=None, desigs=None):
     def b():
         params_key = "target_descriptor_parameters" if x is X4 else "cscd_descriptor_parameters"
-        cs = [cscd(x, "c%d" % i, dt, params_key, give_len) for i, dt in enumerate(devtypes)]
+        cs = [cscd(x, "c%d" % i, dt, params_key, give_len, desigs[i] if desigs else None) for i, dt in enumerate(devtypes)]
         sg = [segment(x, "s%d" % i, c) for i, c in enumerate(segcodes)]
         inline = sym_blob("inline", ninline)
         clen, slen = sum(len(c[1]) for c in cs), sum(len(s[1]) for s in sg)
@@ -261,6 +282,9 @@ for _x, _nm in ((X4, "LID1"), (X5, "LID4")):
     for _gl in (8, 0, 16):
         XCOPY_CASES.append({"name": "EXTENDED COPY %s with designator_length=%d supplied" % (_nm, _gl), "cls": _x,
                             "build": xcopy(_x, [0x00, 0x00], [0x02], 0, give_len=_gl)})
+    for _dg in (("vendor", 1), ("vendor", 17), ("vendor", 20), ("t10", 0), ("t10", 12), ("name", 20)):
+        XCOPY_CASES.append({"name": "EXTENDED COPY %s with a %s designator of %d bytes" % (_nm, _dg[0], _dg[1] + (8 if _dg[0] == "t10" else 0)),
+                            "cls": _x, "build": xcopy(_x, [0x00, 0x01], [0x00], 0, desigs=[_dg, None])})
     XCOPY_CASES.append({"name": "EXTENDED COPY %s three CSCDs, three segments, inline data" % _nm, "cls": _x,
                         "build": xcopy(_x, [0x00, 0x01, 0x03], [0x02, 0x00, 0x02], 7)})
 
@@ -274,7 +298,8 @@ for _ln in range(1, 49):
     pr_case("PR OUT REGISTER AND MOVE, iSCSI name of %d characters" % _ln, 7, _ram(("iscsi", _nm)))
 for _ln in (1, 2, 3, 4, 9, 16, 31):
     pr_case("PR OUT REGISTER AND MOVE, iSCSI name of %d characters with session id" % _ln, 7, _ram(("iscsi", "n" * _ln, "0123456789ab")))
-pr_case("PR OUT REGISTER with SPEC_I_PT and every TransportID kind", 0, _register_spec(list(TID_KINDS)))
+# (SOP has its own case -- and its own known finding; it is left out here so that this case decides the other kinds together)
+pr_case("PR OUT REGISTER with SPEC_I_PT and every other TransportID kind", 0, _register_spec([k for k in TID_KINDS if k != "sop"]))
 pr_case("PR OUT REGISTER with SPEC_I_PT and six iSCSI TransportIDs", 0,
         _register_spec([("iscsi", "q" * k) for k in (3, 4, 5, 6, 7, 8)]))
 PR_CASES = _pr_saved
@@ -282,5 +307,9 @@ MORE_XCOPY_CASES = []
 for _x, _nm in ((X4, "LID1"), (X5, "LID4")):
     MORE_XCOPY_CASES.append({"name": "EXTENDED COPY %s four CSCDs, six segments" % _nm, "cls": _x,
                              "build": xcopy(_x, [0x00, 0x01, 0x03, 0x00], [0x02, 0x00, 0x01, 0x02, 0x01, 0x00], 0)})
+    for _n in range(1, 21):
+        for _k in ("vendor", "name") + (("t10",) if _n >= 8 else ()):
+            MORE_XCOPY_CASES.append({"name": "EXTENDED COPY %s with a %s designator of %d bytes (family)" % (_nm, _k, _n), "cls": _x,
+                                     "build": xcopy(_x, [0x00], [], 0, desigs=[(_k, _n - 8 if _k == "t10" else _n)])})
     MORE_XCOPY_CASES.append({"name": "EXTENDED COPY %s inline data only" % _nm, "cls": _x, "build": xcopy(_x, [], [], 64)})
     MORE_XCOPY_CASES.append({"name": "EXTENDED COPY %s eight block->block segments" % _nm, "cls": _x, "build": xcopy(_x, [0x00, 0x00], [0x02] * 8, 3)})
